@@ -1,8 +1,7 @@
 SPECIFICATION Spec
-CONSTANTS MaxH = 8
- EmitCases = TRUE
- Wide = FALSE
+CONSTANTS MaxH = 16
+ EmitCases = FALSE
+ Wide = TRUE
  YPad = "top"
 INVARIANT BlockDepSafe
-INVARIANT Cases
 CHECK_DEADLOCK FALSE
